@@ -15,7 +15,7 @@ Require Import PV.Front.GaussQc.
 Import ListNotations.
 
 Inductive kind := Dense | Sparse | Symbolic.
-Inductive exn := ValueError | TypeError | IndexError | ZeroDivisionError.
+Inductive exn := ValueError | TypeError | IndexError.
 
 Section Model.
 Variable F : Fld.
@@ -146,15 +146,7 @@ Definition dispatch (Y : rhs) (i j : nat) (eA eB : eigs) : outcome :=
   let last := length E - 1 in
   let explicit :=
     match Y with
-    | YMat k M =>
-      match k, eA, eB with
-      | Symbolic, EScalar0, EScalar0 =>
-        (* both eigenvalue arrays are 0-d integer arrays (zero blocks): np.array(.., dtype=object)
-           holds Python ints and [1 / (0 - 0)] raises instead of giving zoo.  Reported defect;
-           only reachable with i = j (for i <> j the shared-eigenvalue test fires first). *)
-        ORaise ZeroDivisionError
-      | _, _, _ => checked eA eB M (fun M => of_opt (sylv_diag (guard k) eA eB M))
-      end
+    | YMat k M => checked eA eB M (fun M => of_opt (sylv_diag (guard k) eA eB M))
     | _ => ORaise TypeError
     end in
   match vimp, Y with
@@ -227,8 +219,7 @@ Definition mat_eqb (A B : mat F) : bool := list_eqb (list_eqb (keqb F)) A B.
 
 Definition exn_eqb (a b : exn) : bool :=
   match a, b with
-  | ValueError, ValueError | TypeError, TypeError | IndexError, IndexError
-  | ZeroDivisionError, ZeroDivisionError => true
+  | ValueError, ValueError | TypeError, TypeError | IndexError, IndexError => true
   | _, _ => false
   end.
 
